@@ -68,6 +68,11 @@ func ruleLayout(r *Report) {
 					rd = append(rd, k)
 				}
 			}
+			// field widths: the writer's chain gives offset -> width (offs[i+1]-offs[i])
+			widthAt := map[int64]int64{}
+			for i := 0; i+1 < len(offs); i++ {
+				widthAt[offs[i]] = offs[i+1] - offs[i]
+			}
 			for _, c := range callSites(read, "(encoding/binary.littleEndian).Uint64", "(encoding/binary.littleEndian).Uint32") {
 				a := c.Common().Args
 				arg := a[len(a)-1]
@@ -77,6 +82,23 @@ func ruleLayout(r *Report) {
 						continue
 					}
 					break
+				}
+				// the decoding width must be the width the writer gave the field
+				if sl0, ok := arg.(*ssa.Slice); ok {
+					off := int64(0)
+					known := true
+					if sl0.Low != nil {
+						d := env.lin(sl0.Low).add(linAtom("p1"), -1)
+						off, known = d.isConst()
+					}
+					w := int64(8)
+					if cname(c) == "(encoding/binary.littleEndian).Uint32" {
+						w = 4
+					}
+					if ww, ok := widthAt[off]; known && ok {
+						r.Check(ww == w, rule, "index-entry/reader-width", c.Pos(), fmt.Sprintf("the field at offset %d is decoded with its written width (%d bytes)", off, ww),
+							fmt.Sprintf("the field at offset %d is written with %d bytes but decoded as %d bytes: locations at or above 4 GiB (every record from the fifth 1 GiB primary file on) come back truncated and name another key's record", off, ww, w))
+					}
 				}
 				if sl, ok := arg.(*ssa.Slice); ok {
 					if sl.Low != nil {
